@@ -576,7 +576,8 @@ fn run_tls_sequence(
         );
         ts.push(std::thread::spawn(move || loop {
             let i = next.fetch_add(1, Ordering::SeqCst);
-            if i >= items.len() {
+            // a few failed health requests are enough to know the server is wedged
+            if i >= items.len() || unhealthy.load(Ordering::SeqCst) >= 3 {
                 break;
             }
             let c = (i + 1) as u32;
